@@ -69,6 +69,18 @@ def build_filters(ctx, features_drop=()):
                     filters.append(ast.Compare(ast.Eq(), ast.BinOp(ast.Div(), I(col), ast.Integer(d)), ast.Integer(q)))
                 filters.append(ast.Compare(ast.Eq(), ast.BinOp(ast.Mod(), I(col), ast.Integer(d)), ast.Integer("1")))
                 filters.append(ast.Compare(ast.Eq(), ast.BinOp(ast.Div(), ast.Integer("7"), ast.Integer(d)), I(col)))
+    # arithmetic with the constants 0 and 1 on either side (x mul 0, 0 mul x, x add 0, x mul 1, x sub 0, 0 sub x, x div 1, x mod 1 …) over columns that
+    # hold NULL: an algebraic simplification must keep the NULL (NULL * 0 is NULL, not 0)
+    for col in ("i1", "i2"):
+        for op in (ast.Mult, ast.Add, ast.Sub) + (() if "div" in features_drop else (ast.Div, ast.Mod)):
+            for c in ("0", "1"):
+                for rhs in ("0", "1", "-1"):
+                    if not (op in (ast.Div, ast.Mod) and c == "0"):
+                        filters.append(ast.Compare(ast.Eq(), ast.BinOp(op(), I(col), ast.Integer(c)), ast.Integer(rhs)))
+                    filters.append(ast.Compare(ast.LtE(), ast.BinOp(op(), ast.Integer(c), I(col)), ast.Integer(rhs)) if not (op in (ast.Div, ast.Mod)) else
+                                   ast.Compare(ast.Eq(), ast.BinOp(op(), ast.Integer(c), ast.BinOp(ast.Add(), I(col), ast.Integer("8"))), ast.Integer(rhs)))
+                filters.append(ast.UnaryOp(ast.Not(), ast.Compare(ast.NotEq(), ast.BinOp(op(), I(col), ast.Integer(c)), ast.Integer("0")))) if not (op in (ast.Div, ast.Mod) and c == "0") else None
+    filters = [f for f in filters if f is not None]
     # chains of three and four `eq` terms on ONE field joined by `or`, with a null test at every position (a rewrite into IN (...) loses the null test)
     def orchain(terms):
         e = terms[0]
